@@ -15,4 +15,5 @@ CARGO_TARGET_DIR="$ROOT/target/plain" cargo build --offline --profile ship -p si
 RUSTFLAGS="--cfg rten_verif" CARGO_TARGET_DIR="$ROOT/target/a" cargo build --offline --release -p sim_load || fail=1
 RUSTFLAGS="--cfg rten_verif" CARGO_TARGET_DIR="$ROOT/target/a" cargo build --offline --profile ship -p sim_load || fail=1
 CARGO_TARGET_DIR="$ROOT/target/plain" cargo build --offline --release -p sim_extdata || fail=1
+RUSTFLAGS="--cfg rten_verif" CARGO_TARGET_DIR="$ROOT/target/a" cargo build --offline --release -p sim_exec || fail=1
 exit $fail
